@@ -15,6 +15,14 @@ TABLE = {
             "(cycle, offset, t) is then executed on cold, warm and TrafficLight-wrapped real objects and the recorded "
             "answers are validated by TLC against StateAt (trace validation), plus seeded larger cycles and negative t.",
             "TLC, the JSON projection of colours, small-scope hypothesis beyond the enumerated bounds"),
+    "C09": ("ScenarioStore.tla / MC_ScenarioStore.tla / Trace_ScenarioStore.tla",
+            "TLC exhausts the implementation-shaped store model (object tokens with colliding ids; add, list add, all "
+            "removals in single and list form, replace, erase, generate_object_id) and checks Unique, PoolExact, ReAddable, "
+            "GenFresh, RejectAtomic and refinement of the contract; each deviation constant reproduces one defect as a "
+            "TLC counterexample. A transition cover of the dumped state graph and seeded random histories are executed "
+            "on a real Scenario; after every call the contained objects and the probed reserved ids are validated by TLC "
+            "against the contract (total trace actions with re-synchronisation).",
+            "TLC, the projection through public accessors, the deep-copy id probe, small-scope hypothesis"),
 }
 
 PENDING_REASON = "check not built yet in this round (specification module planned in DESIGN.md section 4); not claimed"
